@@ -46,8 +46,11 @@ impl FileSystem for PhysicalFS {
         let fs_path = self.get_path(path);
         std::fs::create_dir(&fs_path).map_err(|err| match err.kind() {
             ErrorKind::AlreadyExists => {
-                let metadata = std::fs::metadata(&fs_path).unwrap();
-                if metadata.is_dir() {
+                // the occupant may be a dangling symlink, in which case metadata() fails
+                let is_dir = std::fs::metadata(&fs_path)
+                    .map(|metadata| metadata.is_dir())
+                    .unwrap_or(false);
+                if is_dir {
                     return VfsError::from(VfsErrorKind::DirectoryExists);
                 }
                 VfsError::from(VfsErrorKind::FileExists)
